@@ -15,8 +15,22 @@ def dump_epoch(e, pops):
             'mig': [[float(e.migration_rates.get((p, q), 0.0)) if p != q else 0.0 for q in pops] for p in pops]}
 
 
+def _split_apply_documented(self, epoch):
+    """PopulationSplit._apply with the dictionary keys the documentation describes (lineages of the DERIVED populations move to
+    the ancestral one; nothing migrates into a derived population any more) - used only to decide whether a failing input fails
+    BECAUSE of the recorded defect D4 (the source writes the transposed keys)"""
+    if epoch.start_time <= self.start_time < epoch.end_time:
+        for p in self.derived:
+            epoch.migration_rates[(p, self.ancestral)] = epoch.pop_sizes[p] * self.multiplier
+        for p in self.derived:
+            for q in epoch.pop_names:
+                epoch.migration_rates[(q, p)] = 0
+
+
 def main():
     pl = json.load(sys.stdin)
+    if pl.get('documented_split'):
+        pg.PopulationSplit._apply = _split_apply_documented
     out = []
     for case in pl['cases']:
         r = {}
